@@ -10,12 +10,12 @@ PROP = {'drive': ['Font'],
                        'C01_nf_idem',
                        'C01_fixed_point_partial',
                        'C01_fixed_point_complete_files',
+                       'C01_fixed_point_truetype',
                        'C01_codec_assumptions_discharged',
                        'C01_head_codec',
                        'C01_os2_codec',
                        'C01_post_codec',
                        'C01_fixed_point_full_false',
-                       'C01_empty_glyf_rejected',
                        'C01_version_round_idem',
                        'C01_time_roundtrip',
                        'C01_angle_round_idem'],
@@ -32,16 +32,16 @@ PROP = {'drive': ['Font'],
              're-encoded data in streams font.meta/font.merge, byte equality of generation 2 and 3 in font.fixed) '
              'and is the subject of C08/C09/C11/C13.',
              'C01_fixed_point_partial holds for every accepted, decoder-produced table set that is in none of the '
-             'open finding classes (structure Stable, one clause per finding): C01-bold-word (Subfamily() says "Bold" '
+             'open finding classes (structure Stable, one clause per class): C01-bold-word (Subfamily() says "Bold" '
              'while IsBold is clear: weight 650..749, family name without "Bold"; negation proved as '
-             'C01_fixed_point_full_false), C01-no-post-underline (no post table and fractional CFF underline metrics), '
-             'C01-no-hmtx-widths / C01-no-hmtx-cff-widths (no usable hmtx). C01_fixed_point_complete_files: a file with '
-             'post and hmtx tables can only fail the first. Repairs for C01-empty-glyf, C01-no-hmtx-widths and '
-             'C01-no-post-underline are proposed in /verif/patches/C01 (not applied; the model documents the repaired '
-             'lines behind REPAIR comments).',
-             'C01_read_write needs InDomain: one width per glyph, version < 2^32, and a TrueType font must have a '
-             'non-blank glyph - otherwise Write emits a zero-length glyf table that Read rejects (known finding '
-             'C01-empty-glyf, witness theorem C01_empty_glyf_rejected).',
+             'C01_fixed_point_full_false), C01-no-hmtx-cff-widths (CFF file without usable hmtx and fractional CFF '
+             'widths), and the int16 range of CFF underline metrics in a file without post table. '
+             'C01_fixed_point_complete_files / C01_fixed_point_truetype: a file with post and hmtx tables, and every '
+             'TrueType file with a post table, can only fail the first. C01-empty-glyf, C01-no-hmtx-widths and '
+             'C01-no-post-underline are repaired (3cdbec2, feedc74, 0dc7ef1); the model mirrors the repaired code '
+             '(REPAIRED comments in Model/FontMerge.lean) and the old failing inputs are corpus/C01/regress.case.',
+             'C01_read_write needs InDomain: one width per glyph and version < 2^32 (what the Go types cannot '
+             'express).',
              'Present-but-empty layout tables (no scripts/features/lookups, a script without features, a feature '
              'without lookups, an unreachable lookup, nil script map) survive Write/Read since the gtab fix d444265 and '
              'take part in every stream; they are compared by presence and by number of scripts/features/lookups.',
